@@ -81,6 +81,10 @@ public:
     [[nodiscard]] bool stack_empty() const { return stackq_.empty(); }
     [[nodiscard]] auto stack_size() const { return stackq_.size(); }
     void stack_clear() { stackq_.clear(); }
+    stack_element& stack_at(std::size_t i) { return stackq_.at(i); }
+    void stack_truncate(std::size_t n) {
+        while (stackq_.size() > n) { stackq_.pop_back(); }
+    }
 
     std::string full_key() {
         std::string buf{};
@@ -148,6 +152,7 @@ iscan_findfirst(iscan_context* ctx, std::string_view start_key, scan_endpoint st
                               && ctx->get_end_point() == scan_endpoint::INCLUSIVE;
 
 retry_from_root: // retry from Masstree root
+    ctx->stack_clear(); // drop what an abandoned descent has pushed
     base_node* root = ctx->get_ti()->load_root_ptr();
     if (root == nullptr) {
         // no border to callback is exist, so give up callback
@@ -211,8 +216,8 @@ retry_fetch_lv:
         // case 1. lv_ptr != nullptr, and link to next-layer
         // visited this node
 
-        root = lv_ptr->get_next_layer();
-        if (root == nullptr) {
+        base_node* next_root = lv_ptr->get_next_layer();
+        if (next_root == nullptr) {
             if (early_abort) { return status::WARN_CONCURRENT_OPERATIONS; }
             goto retry_fetch_lv; // NOLINT
         }
@@ -234,8 +239,10 @@ retry_fetch_lv:
         traverse_key_view.remove_prefix(sizeof(key_slice_type));
         // the link entry actually found. It differs from key_tup only if key_tup is key_tuple::max().
         key_tuple found_tup{key_tup.get_key_slice(), sizeof(key_slice_type) + 1};
+        // root is the root of this layer, next_root the one of the layer below.
         ctx->stack(found_tup, root, target_border, cmp_to_end,
                    {v_at_fb, permutation(target_border->get_permutation().get_body()), 0});
+        root = next_root;
         if (cmp_to_end == 0) {
             if (found_tup != ctx->get_end_tuple(-1)) {
                 cmp_to_end = -1;
@@ -293,6 +300,55 @@ retry_fetch_lv:
 
 static status iscan_next(iscan_context*, void*&, const std::function<bool(node_version64*, node_version64_body)>&);
 
+/**
+ * @brief Resolve the layer roots (and the border nodes holding the links) of the cursor stack again,
+ * from the Masstree root, following the link tuples saved in the stack.
+ * @details It is used when the root of the layer the cursor is in was replaced (split, collapse) or
+ * the layer was removed by concurrent writers. The position inside the top layer (its key) is kept.
+ * @return true if every layer of the stack still exists. The layer_root of each element is current.
+ * @return false if a link on the path does not exist any more. The stack was cut down to the deepest
+ * layer which still exists, and the iteration continues there after the vanished link.
+ */
+static bool iscan_resolve_layers(iscan_context* ctx) {
+retry:
+    base_node* root = ctx->get_ti()->load_root_ptr();
+    for (std::size_t i = 0;; ++i) {
+        auto& elem = ctx->stack_at(i);
+        elem.layer_root = root;
+        if (i + 1 == ctx->stack_size()) { return true; }
+        // elem.key is the tuple of the link to the next layer.
+        const key_tuple link_key = elem.key;
+        status check_status{status::OK};
+        auto node_and_v = find_border(root, link_key.get_key_slice(), link_key.get_key_length(), check_status);
+        if (check_status == status::WARN_RETRY_FROM_ROOT_OF_ALL) { goto retry; } // NOLINT
+        border_node* bn = std::get<0>(node_and_v);
+        node_version64_body v_at_fb = std::get<1>(node_and_v);
+        node_version64_body v_at_fetch_lv{};
+        std::size_t lv_pos{0};
+        link_or_value* lv_ptr = bn->get_lv_of(link_key.get_key_slice(), link_key.get_key_length(),
+                                              v_at_fetch_lv, lv_pos);
+        if (v_at_fetch_lv.get_vsplit() != v_at_fb.get_vsplit() ||
+            (v_at_fetch_lv.get_deleted() && !v_at_fetch_lv.get_root())) {
+            goto retry; // NOLINT
+        }
+        base_node* next_root{nullptr};
+        if (lv_ptr != nullptr && bn->get_key_length_at(lv_pos) > sizeof(key_slice_type)) {
+            next_root = lv_ptr->get_next_layer();
+        }
+        const std::uint64_t perm_body{bn->get_permutation().get_body()};
+        if (bn->get_stable_version() != v_at_fetch_lv) { goto retry; } // NOLINT
+        elem.bn = bn;
+        elem.bi.v_prev = v_at_fetch_lv;
+        elem.bi.perm_prev.set_body(perm_body);
+        elem.bi.perm_rank = 0;
+        if (next_root == nullptr) {
+            ctx->stack_truncate(i + 1);
+            return false;
+        }
+        root = next_root;
+    }
+}
+
 static status
 iscan_open(tree_instance* ti, std::string_view l_key, scan_endpoint l_end, std::string_view r_key, scan_endpoint r_end,
            iscan_context*& context,
@@ -333,34 +389,30 @@ next_layer:
 retry_from_root:
         base_node* root = ctx->stack_top().layer_root;
         auto rv = root->get_stable_version();
-        if (rv.get_deleted()) {
-            // border in upper layer is modified
-            // return to upper root
-            if (ctx->stack_size() == 1) { // L0
-                base_node* new_mt_root = ctx->get_ti()->load_root_ptr();
-                if (root != new_mt_root) {
-                    ctx->stack_top().layer_root = new_mt_root;
-                    goto retry_from_root; // NOLINT
-                }
-                // mt root is deleted, so scan end
-                return status::OK_SCAN_END;
-            }
-            // L1+
-            ctx->stack_pop();
-            st = &ctx->stack_top(); // sync alias
-            goto retry_from_root; // NOLINT
-        }
-        if (!rv.get_root()) {
-            // saved-root is now not root. split?
-            // return to border in upper layer
-            if (ctx->stack_size() == 1) { // L0
-                base_node* new_mt_root = ctx->get_ti()->load_root_ptr();
+        if (rv.get_deleted() && ctx->stack_size() == 1) { // L0
+            base_node* new_mt_root = ctx->get_ti()->load_root_ptr();
+            if (root != new_mt_root) {
                 ctx->stack_top().layer_root = new_mt_root;
                 goto retry_from_root; // NOLINT
             }
-            ctx->stack_pop();
+            // mt root is deleted, so scan end
+            return status::OK_SCAN_END;
+        }
+        if (!rv.get_root() && ctx->stack_size() == 1) { // L0
+            // saved-root is now not root. split?
+            base_node* new_mt_root = ctx->get_ti()->load_root_ptr();
+            ctx->stack_top().layer_root = new_mt_root;
+            goto retry_from_root; // NOLINT
+        }
+        if (rv.get_deleted() || !rv.get_root()) { // L1+
+            // The root of this layer was replaced (split, collapse), or this layer was removed.
+            // The link in the upper layer tells which. Keep the position (last_key) in this layer.
+            if (!iscan_resolve_layers(ctx)) {
+                // this layer does not exist any more. continue after its link in the upper layer.
+                goto next_layer; // NOLINT
+            }
             st = &ctx->stack_top(); // sync alias
-            goto next_layer; // NOLINT // or jump to entry point of this function
+            goto retry_from_root; // NOLINT
         }
         status check_status{};
         auto border_node_and_v =
@@ -481,18 +533,26 @@ retry_after_fb:
         // in range
         if (kl > sizeof(key_slice_type)) {
             base_node* child = lv->get_next_layer();
-            if (child == nullptr) {
+            // check that the fetched link is the one of kt.
+            check_status = iscan_check_retry(bn, v_at_fb, perm);
+            if (child == nullptr || check_status != status::OK) {
                 if (early_abort) { return status::WARN_CONCURRENT_OPERATIONS; }
-//                goto retry_fetch_lv; // NOLINT
-            }
-            // TODO: implement check and retry
-
-            if (bnv_cb(bn->get_version_ptr(), v_at_fb)) {
-                return status::WARN_ABORTED_BY_USER;
+                if (check_status == status::OK_RETRY_FROM_ROOT) {
+                    goto retry_from_root; // NOLINT
+                }
+                goto retry_after_fb; // NOLINT
             }
             key_tuple child_kt = right_to_left ? key_tuple::max() : key_tuple::min();
             auto child_border_node_and_v =
                 find_border(child, child_kt.get_key_slice(), child_kt.get_key_length(), check_status);
+            if (check_status == status::WARN_RETRY_FROM_ROOT_OF_ALL) {
+                // child is not the root of the next layer any more. the link is being updated.
+                if (early_abort) { return status::WARN_CONCURRENT_OPERATIONS; }
+                goto retry_after_fb; // NOLINT
+            }
+            if (bnv_cb(bn->get_version_ptr(), v_at_fb)) {
+                return status::WARN_ABORTED_BY_USER;
+            }
             border_node* target_border = std::get<0>(child_border_node_and_v);
             // save stack context
             ctx->stack_top().bn = bn;
